@@ -303,6 +303,25 @@ let op_frame opidx impl toks =
        | _ -> ())
   | _ -> ()
 
+(* framefail <n> <reader> <rejectat> <stream> sched...: the n-th allocation made by the stream reader fails (C19).  Which
+   packet that costs depends on the allocation, so the implementation's line is taken as it is; what must hold of it:
+   every packet handed on is a complete frame of the stream, in stream order -- a packet is dropped whole or not at all *)
+let op_framefail opidx impl toks =
+  match toks with
+  | _n :: _kind :: _rej :: stream :: _ ->
+      let fr = frames (bytes_of_hex stream) in
+      (match impl with
+       | Some [ "frame"; p ] ->
+           pr "obs %d frame %s\n" opidx p;
+           let ip = if p = "pkts=-" then [] else List.map bytes_of_hex (String.split_on_char ',' (String.sub p 5 (String.length p - 5))) in
+           let rec subseq a b = match a, b with
+             | [], _ -> true
+             | _, [] -> false
+             | x :: a', y :: b' -> if x = y then subseq a' b' else subseq a b' in
+           spec opidx "C19_frame_dropped_whole" (subseq ip fr) (Printf.sprintf "handed=%d frames=%d" (List.length ip) (List.length fr))
+       | _ -> pr "obs %d frame ?\n" opidx)
+  | _ -> ()
+
 (* ---- C18: log lines ---- *)
 let sha256 (b : n list) : n list = bytes_of_string (Sha256.sha256 (string_of_bytes b))
 let hmac_sha256 (k : n list) (m : n list) : n list = bytes_of_string (Sha256.hmac_sha256 (string_of_bytes k) (string_of_bytes m))
@@ -627,6 +646,7 @@ let run (opidx : int) (impl : string list option) (toks : string list) : bool =
   | "cert" :: rest -> op_cert opidx impl rest; true
   | "logline" :: rest -> op_logline opidx impl rest; true
   | "frame" :: rest -> op_frame opidx impl rest; true
+  | "framefail" :: rest -> op_framefail opidx impl rest; true
   | "addr" :: rest -> op_addr opidx impl rest; true
   | "rewrite" :: rest -> op_rewrite opidx impl rest; true
   | "parse" :: rest -> op_parse opidx impl rest; true
